@@ -61,16 +61,11 @@ MUTANTS = [
 		)
 	}
 """, "")),
- ("C05-b", (CH, """	commitment := types.CommitPacket(packet)
-
-	// verify that the counterparty did commit to sending this packet
-	if err := k.connectionKeeper.VerifyPacketCommitment(""", """	commitment := types.CommitPacket(types.NewPacket(packet.GetData(), packet.GetSequence(), packet.GetSourcePort(), packet.GetSourceChannel(), packet.GetDestPort(), packet.GetDestChannel(), packet.GetTimeoutHeight().(clienttypes.Height), 0))
-	if packet.GetTimeoutHeight().IsZero() {
-		commitment = types.CommitPacket(packet)
+ ("C05-b", ("modules/core/04-channel/types/packet.go", """	dataHash := sha256.Sum256(packet.GetData())""", """	d := packet.GetData()
+	if len(d) > 4 {
+		d = d[:4]
 	}
-
-	// verify that the counterparty did commit to sending this packet
-	if err := k.connectionKeeper.VerifyPacketCommitment(""")),
+	dataHash := sha256.Sum256(d)""")),
  ("C05-c", (CH, """	if connectionEnd.State != connectiontypes.OPEN {
 		return "", errorsmod.Wrapf(connectiontypes.ErrInvalidConnectionState, "connection state is not OPEN (got %s)", connectionEnd.State)
 	}
@@ -95,22 +90,7 @@ MUTANTS = [
 	}
 
 	if err := k.connectionKeeper.VerifyPacketAcknowledgement(""")),
- ("C06-b", (V2P, """		types.CommitAcknowledgement(acknowledgement),
-	); err != nil {
-		return errorsmod.Wrapf(err, "failed packet acknowledgement verification for client (%s)", clientID)""", """		types.CommitAcknowledgement(sortedAck(acknowledgement)),
-	); err != nil {
-		return errorsmod.Wrapf(err, "failed packet acknowledgement verification for client (%s)", clientID)"""),
-   (V2P, """func (k *Keeper) acknowledgePacket(""", """func sortedAck(a types.Acknowledgement) types.Acknowledgement {
-	out := types.Acknowledgement{AppAcknowledgements: append([][]byte{}, a.AppAcknowledgements...)}
-	for i := 1; i < len(out.AppAcknowledgements); i++ {
-		for j := i; j > 0 && bytes.Compare(out.AppAcknowledgements[j-1], out.AppAcknowledgements[j]) > 0; j-- {
-			out.AppAcknowledgements[j-1], out.AppAcknowledgements[j] = out.AppAcknowledgements[j], out.AppAcknowledgements[j-1]
-		}
-	}
-	return out
-}
-
-func (k *Keeper) acknowledgePacket(""")),
+ ("C06-b", (V2M, """			ack = msg.Acknowledgement.AppAcknowledgements[i]""", """			ack = msg.Acknowledgement.AppAcknowledgements[len(msg.Packet.Payloads)-1-i]""")),
  ("C08-b", (V2P, """	if !timeout.After(ctx.BlockTime()) {""", """	if timeout.Before(ctx.BlockTime().Truncate(time.Second)) {""")),
  ("C08-c", (CH, """	k.SetNextSequenceSend(ctx, sourcePort, sourceChannel, sequence+1)
 	k.SetPacketCommitment(ctx, sourcePort, sourceChannel, packet.GetSequence(), commitment)""", """	if sequence%7 == 6 {
